@@ -114,6 +114,7 @@ def check(ctx):
     d4_domains(ctx, idx, env)
     d4_decorator(ctx, idx, env)
     d4_evalfn(ctx, idx, env)
+    d4_matrix_policy(ctx, idx, env)
     d5_numpy_state(ctx, idx)
 
 
@@ -1170,8 +1171,33 @@ def _truthy_text(e):
     return False
 
 
+def _literal_truth(g):
+    """Truth value of a guard whose operands are literals (`{...} is None`, `None is None`, `not None`), else None."""
+    if isinstance(g, ast.UnaryOp) and isinstance(g.op, ast.Not):
+        t = _literal_truth(g.operand)
+        return None if t is None else not t
+    if isinstance(g, ast.Compare) and len(g.ops) == 1 and isinstance(g.ops[0], (ast.Is, ast.IsNot, ast.Eq, ast.NotEq)):
+        def kind(e):
+            if isinstance(e, ast.Constant) and e.value is None:
+                return 'none'
+            if isinstance(e, (ast.Dict, ast.List, ast.Tuple, ast.Set, ast.JoinedStr)) or (
+                    isinstance(e, ast.Constant) and e.value is not None):
+                return 'value'
+            return None
+        a, b = kind(g.left), kind(g.comparators[0])
+        if a and b and 'none' in (a, b):
+            same = a == b == 'none'
+            return same if isinstance(g.ops[0], (ast.Is, ast.Eq)) else not same
+    if isinstance(g, (ast.Dict, ast.List, ast.Tuple)):
+        return bool(g.keys if isinstance(g, ast.Dict) else g.elts)
+    return None
+
+
 def _feasible(p):
     for g in p.guards:
+        for c_ in nf.conjuncts(g):
+            if _literal_truth(c_) is False:
+                return False
         if isinstance(g, ast.Constant) and not g.value:
             return False
         if isinstance(g, ast.UnaryOp) and isinstance(g.op, ast.Not):
@@ -1843,6 +1869,138 @@ def d4_evalfn(ctx, idx, env):
             r.undecided('get_number_of_args [signature]', 'fallback path not recognised', gf.loc)
 
 
+def _first_match_value(idx, fi, gen, err_name, cls_name, mod):
+    """Value expression selected for exception class cls_name by `next(v for classes, v in TABLE if isinstance(err, classes))`
+    (TABLE a literal of rows, a local bound once, or the single-return value of a method/function); None if not readable."""
+    if not (isinstance(gen, (ast.GeneratorExp, ast.ListComp)) and len(gen.generators) == 1):
+        return None
+    g = gen.generators[0]
+    if not (isinstance(g.target, (ast.Tuple, ast.List)) and all(isinstance(t, ast.Name) for t in g.target.elts) and len(g.ifs) == 1):
+        return None
+    names = [t.id for t in g.target.elts]
+    test = g.ifs[0]
+    if not (isinstance(test, ast.Call) and nf.callee_name(test) == 'isinstance' and len(test.args) == 2 and isinstance(test.args[0], ast.Name)
+            and test.args[0].id == err_name and isinstance(test.args[1], ast.Name) and test.args[1].id in names
+            and isinstance(gen.elt, ast.Name) and gen.elt.id in names):
+        return None
+    ci, vi = names.index(test.args[1].id), names.index(gen.elt.id)
+    table = lib.inline_locals(g.iter, fi.node)
+    if isinstance(table, ast.Call):
+        try:
+            targets, how = idx.resolve_call(fi, table)
+        except Exception:
+            targets = []
+        fs = [t for t in targets if hasattr(t, 'qualname')]
+        if len(fs) >= 1 and all(len(lib.returns_of(f.node)) == 1 for f in fs):
+            own = [f for f in fs if f.cls is not None and f.cls.qualname == MGQ] or fs
+            table = lib.returns_of(own[0].node)[0].value
+    if not isinstance(table, (ast.Tuple, ast.List)):
+        return None
+    for row in table.elts:
+        if not (isinstance(row, (ast.Tuple, ast.List)) and len(row.elts) == len(names)):
+            return None
+        cl = row.elts[ci]
+        classes = [unparse(e).split('.')[-1] for e in (cl.elts if isinstance(cl, (ast.Tuple, ast.List)) else [cl])]
+        for c_ in classes:
+            real = c_
+            kind, obj = idx.resolve_name(mod, c_)
+            if kind == 'class':
+                real = obj.name
+            if real == cls_name or lib.exc_is_subclass(idx, mod, cls_name, real):
+                return row.elts[vi], row
+    return 'nomatch'
+
+
+def d4_matrix_policy(ctx, idx, env):
+    r = ctx.rule('D4.MATRIXPOLICY', 'in MatrixGrader a default function called with wrong-shaped arguments (ArgumentShapeError) is a '
+                                    'student-facing error unless matrix messages are suppressed: no grading switch turns it into a grade',
+                 floor=1)
+    with r:
+        fi = idx.func(MGQ + '.check_response')
+        mod = fi.module
+        trys = lib.stmts_in(fi.node, ast.Try)
+        if len(trys) != 1:
+            raise AnalysisError('MatrixGrader.check_response: expected one try')
+        tr = trys[0]
+        cls_name = 'ArgumentShapeError'
+        hs = []
+        for h in tr.handlers:
+            for n in lib.handler_class_names(h):
+                kind, obj = idx.resolve_name(mod, n)
+                real = obj.name if kind == 'class' else n
+                if real == cls_name or lib.exc_is_subclass(idx, mod, cls_name, real):
+                    hs.append(h)
+                    break
+        construct = 'MatrixGrader.check_response: ArgumentShapeError'
+        if not hs:
+            r.ok(construct, 'not caught: propagates as a student-facing error', lib.loc(fi, tr))
+            return
+        h = hs[0]
+        # resolve `flag = next(<first-match table lookup>)` for this exception class
+        env_ = {}
+        for st in walk_own(h):
+            if isinstance(st, ast.Assign) and len(st.targets) == 1 and isinstance(st.targets[0], ast.Name) and isinstance(st.value, ast.Call) \
+                    and nf.callee_name(st.value) == 'next' and st.value.args and h.name:
+                sel = _first_match_value(idx, fi, st.value.args[0], h.name, cls_name, mod)
+                if sel is None:
+                    r.undecided(construct, 'first-match lookup not readable: %s' % short(st.value), lib.loc(fi, st))
+                    return
+                if sel == 'nomatch':
+                    r.violation(construct, 'no row of the error-policy table matches ArgumentShapeError although the handler catches it: '
+                                'next(...) raises StopIteration (a non-student-facing error)', lib.loc(fi, st))
+                    return
+                env_[st.targets[0].id] = sel
+        class _Sel(ast.NodeTransformer):
+            def visit_Call(self, node):
+                for orig, (val, row) in lookups:
+                    if nf.equal(nf.canon(orig), nf.canon(node)):
+                        return clone(val)
+                return self.generic_visit(node)
+        lookups = [(st.value, env_[st.targets[0].id]) for st in walk_own(h) if isinstance(st, ast.Assign) and len(st.targets) == 1
+                   and isinstance(st.targets[0], ast.Name) and st.targets[0].id in env_ and isinstance(st.value, ast.Call)]
+        try:
+            paths = nf.decision_paths(h.body)
+            for p_ in paths:
+                p_.guards = [nf.canon(_Sel().visit(clone(g))) for g in p_.guards]
+        except AnalysisError as e:
+            r.undecided(construct, str(e), lib.loc(fi, h))
+            return
+        bad = None
+        for p in paths:
+            gs = [c for g in p.guards for c in nf.conjuncts(g)]
+            gs = [g for g in gs if not (h.name and isinstance(g, ast.Call) and nf.callee_name(g) == 'isinstance')]
+            # paths of a merged handler that belong to other exception classes
+            other = False
+            for g in p.guards:
+                for c in nf.conjuncts(g):
+                    if isinstance(c, ast.Call) and nf.callee_name(c) == 'isinstance' and len(c.args) == 2 and isinstance(c.args[0], ast.Name) \
+                            and c.args[0].id == h.name:
+                        names_ = [unparse(e).split('.')[-1] for e in (c.args[1].elts if isinstance(c.args[1], ast.Tuple) else [c.args[1]])]
+                        if not any(n_ == cls_name or lib.exc_is_subclass(idx, mod, cls_name, (idx.resolve_name(mod, n_)[1].name
+                                   if idx.resolve_name(mod, n_)[0] == 'class' else n_)) for n_ in names_):
+                            other = True
+            if other or not _feasible(nf.Path(gs, p.leaf, p.effects)):
+                continue
+            if p.leaf.kind == 'raise':
+                continue
+            suppressed = any(nf.classify("self.config['suppress_matrix_messages']", g) == nf.MATCH for g in gs)
+            if p.leaf.kind == 'ret' and suppressed:
+                continue
+            bad = (p, gs)
+            break
+        if bad is None:
+            r.ok(construct, 'raised unless suppress_matrix_messages', lib.loc(fi, h))
+        else:
+            p, gs = bad
+            row = next((v[1] for v in env_.values()), None)
+            r.violation(construct, 'an ArgumentShapeError (a default function such as det/cross called with a wrong-shaped argument) is turned '
+                        'into a graded result when %s%s: the student is marked wrong instead of being told that the function received '
+                        'an argument of the wrong shape; only suppress_matrix_messages may do that'
+                        % (' and '.join(unparse(g) for g in gs) or 'always',
+                           ' (it is governed by the table row `%s`, which is the row of the shape_errors switch)' % short(row) if row is not None else ''),
+                        lib.loc(fi, p.leaf.stmt or h), expected="re-raised unless self.config['suppress_matrix_messages']")
+
+
 # ----------------------------------------------------------------------------- D5
 def d5_numpy_state(ctx, idx):
     r = ctx.rule('D5.NPSTATE', 'numpy floating-point errors (invalid value, overflow, divide by zero) are raised as Python '
@@ -2027,6 +2185,8 @@ MUTANTS = [
            "def with_synonyms(table, synonyms):\n    result = dict(table)\n    result.update({synonym: table[name] for synonym, name in synonyms.items()})\n    return result\n\ndef conjugate_transpose(obj):\n    return np.conj(np.transpose(obj))\n\nARRAY_ONLY_FUNCTIONS = with_synonyms({\n    'norm': np.linalg.norm,\n    'abs': array_abs,\n    'trans': np.transpose,\n    'det': has_one_square_input('det')(np.linalg.det),\n    'trace': has_one_square_input('trace')(np.trace),\n    'ctrans': conjugate_transpose,\n    'cross': cross\n}, synonyms={'adj': 'trans'})", 'D1'),
     Mutant('seeded-C02i-square-test-without-matharray-guard', SD, "    def shape_validator(obj):\n        if isinstance(obj, MathArray):\n            if obj.shape == shape:\n                return obj\n            elif shape == 'square' and is_square(obj):\n                return obj\n",
            "    if shape == 'square':\n        has_expected_shape = is_square\n    else:\n        def has_expected_shape(obj):\n            return isinstance(obj, MathArray) and obj.shape == shape\n\n    def shape_validator(obj):\n        if has_expected_shape(obj):\n            return obj\n", 'D4'),
+    Mutant('seeded-C15k-argument-shape-error-governed-by-shape-errors', MG, "            # Suppress these too.\n            if self.config['suppress_matrix_messages']:\n                return {'ok': False, 'msg': '', 'grade_decimal': 0}\n            raise\n        return result",
+           "            # Suppress these too.\n            if self.config['suppress_matrix_messages']:\n                return {'ok': False, 'msg': '', 'grade_decimal': 0}\n            if self.config['shape_errors']:\n                raise\n            return {'ok': False, 'msg': str(err), 'grade_decimal': 0}\n        return result", 'D4'),
     Mutant('constant-e', MF, "    'e': np.e,", "    'e': 2.71,", 'D3'),
     Mutant('constant-pi', MF, "    'pi': np.pi\n", "    'pi': 3.14159\n", 'D3'),
     Mutant('constant-i', MF, "    'i': complex(0, 1),", "    'i': complex(1, 0),", 'D3'),
@@ -2124,5 +2284,7 @@ BENIGN = [
            "    if shape == 'square':\n        def has_expected_shape(obj):\n            return isinstance(obj, MathArray) and is_square(obj)\n    else:\n        def has_expected_shape(obj):\n            return isinstance(obj, MathArray) and obj.shape == shape\n\n    def shape_validator(obj):\n        if has_expected_shape(obj):\n            return obj\n"),
     Benign('cross-comprehension-over-cyclic-pairs', MF, "    return MathArray([\n        a[1]*b[2] - b[1]*a[2],\n        a[2]*b[0] - b[2]*a[0],\n        a[0]*b[1] - b[0]*a[1]\n    ])",
            "    cyclic_pairs = ((1, 2), (2, 0), (0, 1))\n    return MathArray([a[i] * b[j] - b[i] * a[j] for i, j in cyclic_pairs])"),
+    Benign('C15k-corrected-argument-shape-error-always-raised', MG, "            # Suppress these too.\n            if self.config['suppress_matrix_messages']:\n                return {'ok': False, 'msg': '', 'grade_decimal': 0}\n            raise\n        return result",
+           "            # Suppress these too.\n            if not self.config['suppress_matrix_messages']:\n                raise\n            return {'ok': False, 'msg': '', 'grade_decimal': 0}\n        return result"),
     Benign('kronecker-else', MF, "    if x == y:\n        return 1\n    return 0", "    if x != y:\n        return 0\n    else:\n        return 1"),
 ]
